@@ -40,6 +40,9 @@ def run_property(prop: str, tier: str, repo: str, evidence_dir: str, write_evide
         fz = benign.run_for_property(prop, repo, seed=int(os.environ.get('VERIF_SEED', '0') or 0), budget=int(os.environ.get('SFA_BENIGN_BUDGET', '32')))
         st['benign_fuzz'] = {k: v for k, v in fz.items() if k != 'results'}
         st['failed'] = list(st.get('failed', [])) + [f'benign edit raised an alarm: {x}' for x in fz['false_alarms']]
+        cp = benign.run_corpus(prop, repo)
+        st['refactor_corpus'] = cp
+        st['failed'] = list(st.get('failed', [])) + [f'behaviour-preserving refactoring raised an alarm: {x}' for x in cp['alarms']]
     seed = int(os.environ.get('VERIF_SEED', '0') or 0)
     rc = finish(ctx, seed, evidence_dir, mod.LEVEL_TEXT, selftest=st, write_evidence=write_evidence)
     if st is not None and st.get('failed'):
